@@ -319,6 +319,36 @@ def g2b_identifier_generation_after_activation(prog):
                 seen.add(l)
                 for db, di, ds in body.assigns_to(l):
                     if di is None:
+                        # produced by a call: a generation returned by the activation itself must be the bumped one
+                        if ds['f'].get('name') == 'activate_unchecked':
+                            callee = [g for g in prog.fns.values() if g.name == 'activate_unchecked' and 'slot::Slot' in g.path]
+                            if len(callee) == 1:
+                                cb = callee[0].body
+                                gw = [(b2, i2) for b2, i2, s2 in cb.stmts() if s2['k'] == 'assign' and s2['place']['p'] and receiver_name(prog, cb, {'copy': s2['place']}) == 'self.generation']
+                                okret = False
+                                for b2, i2, s2 in cb.stmts():
+                                    if s2['k'] == 'assign' and s2['place']['l'] == 0 and s2['rv']['k'] == 'use':
+                                        src = s2['rv']['op']
+                                        # walk copies back to a read of self.generation
+                                        cur = op_local(src)
+                                        pos = (b2, i2)
+                                        hops = 0
+                                        while cur is not None and hops < 10:
+                                            hops += 1
+                                            d3 = single_def(cb, cur)
+                                            if d3 and d3[0] == 'assign' and d3[3]['rv']['k'] == 'use':
+                                                pl3 = op_place(d3[3]['rv']['op'])
+                                                if pl3 is not None and pl3['p'] and receiver_name(prog, cb, d3[3]['rv']['op']) == 'self.generation':
+                                                    okret = any(pos_after(cb, (d3[1], d3[2]), w) for w in gw)
+                                                    break
+                                                cur = op_local(d3[3]['rv']['op'])
+                                            else:
+                                                break
+                                        if op_place(src) is not None and op_place(src)['p'] and receiver_name(prog, cb, src) == 'self.generation':
+                                            okret = any(pos_after(cb, (b2, i2), w) for w in gw)
+                                if not okret:
+                                    r.viol('G2b', name + '/activation-returns-stale-generation', callee[0].loc(),
+                                           'the generation returned by Slot::activate_unchecked (and used for the returned identifier) is not the generation after the bump')
                         continue
                     rv = ds['rv']
                     if rv['k'] == 'use':
